@@ -234,8 +234,8 @@ Section Hist.
     intros fuel s st o st' ob l Hi H. destruct o; cbn [step_op] in H.
     - destruct (do_sched cfg st k t p tag holder body) as [s1 rc] eqn:E. inversion H; subst.
       rewrite execs_nil, app_nil_r. eapply I_sched; eassumption.
-    - inversion H; subst. rewrite execs_nil, app_nil_r. apply I_cancel, Hi.
-    - inversion H; subst. rewrite execs_nil, app_nil_r. apply I_drop, Hi.
+    - inversion H; subst. cbn [execs flat_map exec_of app]. rewrite app_nil_r. apply I_cancel, Hi.
+    - inversion H; subst. cbn [execs flat_map exec_of app]. rewrite app_nil_r. apply I_drop, Hi.
     - destruct (run_loop cfg fuel t st) as [[s1 l1] ok] eqn:E. inversion H; subst.
       eapply hist_run_loop; eassumption.
     - destruct (run_loop cfg fuel (s_time st + d) st) as [[s1 l1] ok] eqn:E. inversion H; subst.
